@@ -267,6 +267,18 @@ impl Node {
     self.readers.len() - 1
   }
 
+  /// a second reader on the topic of reader `other`, sharing its topic cache
+  pub fn add_reader_sharing(&mut self, eid: EntityId, qos: &QosPolicies, other: usize) -> usize {
+    let guid = GUID::new(self.prefix, eid);
+    let topic = self.readers[other].topic_name.clone();
+    let cache = self.readers[other].topic_cache.clone();
+    let (ing, rr) = reader_ingredients_sharing(guid, &topic, qos, false, 256, Some(cache));
+    let reader = Reader::new(ing, udp_sender(), timer(), self.participant_status_tx.clone());
+    self.mr.add_reader(reader);
+    self.readers.push(rr);
+    self.readers.len() - 1
+  }
+
   pub fn add_writer(&mut self, eid: EntityId, topic: &str, qos: &QosPolicies) -> usize {
     self.add_writer_with(eid, topic, qos, 256, 256)
   }
@@ -348,11 +360,26 @@ pub fn reader_ingredients(
   like_stateless: bool,
   status_capacity: usize,
 ) -> (ReaderIngredients, RigReader) {
-  let topic_cache = Arc::new(Mutex::new(TopicCache::new(
-    topic.to_string(),
-    TypeDesc::new("RigType".to_string()),
-    &roomy(qos),
-  )));
+  reader_ingredients_sharing(guid, topic, qos, like_stateless, status_capacity, None)
+}
+
+/// `shared`: the topic cache of another reader on the same topic (one participant has one
+/// cache per topic, shared by all its readers on that topic)
+pub fn reader_ingredients_sharing(
+  guid: GUID,
+  topic: &str,
+  qos: &QosPolicies,
+  like_stateless: bool,
+  status_capacity: usize,
+  shared: Option<Arc<Mutex<TopicCache>>>,
+) -> (ReaderIngredients, RigReader) {
+  let topic_cache = shared.unwrap_or_else(|| {
+    Arc::new(Mutex::new(TopicCache::new(
+      topic.to_string(),
+      TypeDesc::new("RigType".to_string()),
+      &roomy(qos),
+    )))
+  });
   let (notification_tx, notification_rx) = mio_channel::sync_channel::<()>(4);
   let (status_tx, status_rx) =
     sync_status_channel::<DataReaderStatus>(status_capacity).expect("rig: status channel");
